@@ -427,7 +427,10 @@ class TracerMixin:
 
         # Add `Trace` objects to the model instance
         self.__dict__['index'].append(self.TRACE_NAME)
-        self.__dict__['_' + self.TRACE_NAME] = np.array([Trace([]) for _ in self.span])
+        # (`dtype=object`: NumPy would otherwise infer `float` for an empty span)
+        self.__dict__['_' + self.TRACE_NAME] = np.array(
+            [Trace([]) for _ in self.span], dtype=object
+        )
 
     def trace_period(
         self,
